@@ -97,12 +97,14 @@ static void dump_results(Ctx& c, int crashed_signal, uint64_t crash_index, const
     if (b) { fwrite(c.bitmap.data(), 8, c.bitmap.size(), b); fclose(b); }
 }
 
+const char* (*crash_explain)(const void* fault_addr) = nullptr;
 static void crash_handler(int sig, siginfo_t* si, void*) {
     if (g_dumping) _exit(71);
     g_dumping = 1;
     Ctx& c = *g_ctx;
-    char note[600];
-    snprintf(note, sizeof note, "prop=%s signal=%d addr=%p stage=%llu asan=%d note=%s", c.cur_prop, sig, si ? si->si_addr : nullptr,
+    char note[700];
+    const char* why = (crash_explain && si && (sig == SIGSEGV || sig == SIGBUS)) ? crash_explain(si->si_addr) : nullptr;
+    snprintf(note, sizeof note, "prop=%s signal=%d addr=%p%s%s stage=%llu asan=%d note=%s", c.cur_prop, sig, si ? si->si_addr : nullptr, why ? " " : "", why ? why : "",
              (unsigned long long)(c.recorder ? c.recorder[1] : 0), (int)(c.recorder ? c.recorder[2] : 0), c.recorder_note ? c.recorder_note : "");
     dump_results(c, sig, c.case_index, note, c.case_index + 1);
     _exit(70);
